@@ -13,13 +13,53 @@ pub proof fn lemma_rc_first_call_is(blk: Term<Blk>, tid: Tid, i: int)
     if i < c { assert(!rc_jmp_calls(blk, tid, i)); }
 }
 
-/// chroot is not imported: nothing is reported
-pub broadcast proof fn lemma_rc243_no_chroot<'a>(g: DiGraph<Node<'a>, Edge<'a>>, m: Map<Tid, ExternSymbol>, names: Seq<String>, n: int)
-    requires rc_find_symbol(m, "chroot"@) is None,
-    ensures #[trigger] rc243_warnings(g, m, names, n) == Seq::<CweWarning>::empty(),
+/// chroot is not imported: the empty list is correct
+pub broadcast proof fn lemma_rc243_no_chroot<'a>(g: DiGraph<Node<'a>, Edge<'a>>, m: Map<Tid, ExternSymbol>, names: Seq<String>, n: int, w: Seq<CweWarning>)
+    requires rc_find_symbol(m, "chroot"@) is None, w.len() == 0,
+    ensures #[trigger] rc243_list(g, m, names, n, w),
     decreases n,
 {
-    if n > 0 { lemma_rc243_no_chroot(g, m, names, n - 1); }
+    if n > 0 { lemma_rc243_no_chroot(g, m, names, n - 1, w); }
+}
+
+/// appending the warning of a node with verdict true
+pub broadcast proof fn lemma_rc243_push<'a>(g: DiGraph<Node<'a>, Edge<'a>>, m: Map<Tid, ExternSymbol>, names: Seq<String>, n: int, w: Seq<CweWarning>, x: CweWarning)
+    requires
+        0 <= n,
+        rc243_list(g, m, names, n, w),
+        rc243_verdict(g, m, names, n, true),
+        x == rc243_warning_at(g, m, n),
+    ensures
+        #[trigger] rc243_list(g, m, names, n + 1, w.push(x)),
+{
+    assert(w.push(x).drop_last() =~= w);
+    assert(w.push(x).last() == x);
+}
+
+/// all outgoing edges seen: the search state is a return site of the call
+pub broadcast proof fn lemma_rc243_ret_done<'a, N>(g: DiGraph<N, Edge<'a>>, a: NodeIndex, callsite: Tid, refs: Seq<RcEdgeReference<'a, Edge<'a>>>, idx: int, cur: Option<NodeIndex>)
+    requires
+        rc_out_edges_ok(g, a, refs),
+        idx >= refs.len(),
+        #[trigger] rc243_ret_upto(g, a, callsite, refs, idx, cur),
+    ensures
+        rc243_ret_ok(g, a, callsite, cur),
+{
+    match cur {
+        None => {
+            assert forall |e: int| !rc243_ret_edge(g, a, callsite, e) by {
+                if rc243_ret_edge(g, a, callsite, e) {
+                    let k = choose |k: int| 0 <= k < refs.len() && (#[trigger] refs[k]).e.i == e;
+                    assert(!rc243_ret_edge(g, a, callsite, refs[k].e.i as int));
+                }
+            }
+        }
+        Some(r) => {
+            let k = choose |k: int| 0 <= k < idx && k < refs.len() && rc243_ret_edge(g, a, callsite, (#[trigger] refs[k]).e.i as int) && r == refs[k].tgt;
+            assert(rc_ref_of(g, refs[k]));
+            assert(rc243_ret_edge(g, a, callsite, refs[k].e.i as int));
+        }
+    }
 }
 
 /// every entry of the list of privilege-dropping tids is the lookup result of a configured name, and vice versa
@@ -78,11 +118,15 @@ pub broadcast proof fn lemma_rc243_drops(sub: Term<Sub>, m: Map<Tid, ExternSymbo
     }
 }
 
-/// with exactly one outgoing edge, the target of any outgoing edge is "the node after"
-pub broadcast proof fn lemma_rc_after_is<N, E>(g: DiGraph<N, E>, a: NodeIndex, e: int)
-    requires rc_one_out_edge(g, a), #[trigger] rc_out_edge(g, a, e),
-    ensures g.edge_seq()[e].1 == rc_after(g, a),
+/// `s.push(x)` without its last element is `s` (fires on the term that unfolding rc243_list produces)
+pub broadcast proof fn lemma_rc_push_drop_last<A>(s: Seq<A>, x: A)
+    ensures #[trigger] s.push(x).drop_last() == s,
 {
-    let c = choose |c: int| rc_out_edge(g, a, c);
-    assert(rc_out_edge(g, a, c));
+    assert(s.push(x).drop_last() =~= s);
+}
+
+/// the last element of `s.push(x)` is `x`
+pub broadcast proof fn lemma_rc_push_last<A>(s: Seq<A>, x: A)
+    ensures #[trigger] s.push(x).last() == x,
+{
 }
